@@ -20,6 +20,7 @@ import (
 	"encoding/binary"
 	"errors"
 	"math/big"
+	"strings"
 
 	"verif/ref/addr"
 	"verif/ref/ec"
@@ -314,4 +315,48 @@ func (k *ExtKey) SLIP132Addr() string {
 		return P2WPKHAddr(k.PubKey(), tn)
 	}
 	return P2PKHAddr(k.PubKey(), tn)
+}
+
+// ParsePath reads a derivation path in BIP32 notation under the decimal reading: "m", then for every element
+// "/" followed by a decimal integer (digits 0-9; leading zeros and one sign are tolerated as long as the VALUE is
+// an integer 0 <= n < 2^31) and optionally one hardened marker (', h or H).  Everything else - other number bases
+// (0x.., 0o.., 0b..), digit separators, white space, empty elements, a capital M, values outside the range - is
+// "not a path".  The result is the list of child numbers (hardened ones with the top bit set).
+func ParsePath(s string) ([]uint32, error) {
+	els := strings.Split(s, "/")
+	if els[0] != "m" {
+		return nil, errors.New("hd: a path starts with m")
+	}
+	var path []uint32
+	for _, e := range els[1:] {
+		hardened := false
+		if n := len(e); n > 0 && (e[n-1] == '\'' || e[n-1] == 'h' || e[n-1] == 'H') {
+			hardened = true
+			e = e[:n-1]
+		}
+		neg := false
+		if len(e) > 0 && (e[0] == '+' || e[0] == '-') {
+			neg = e[0] == '-'
+			e = e[1:]
+		}
+		if e == "" {
+			return nil, errors.New("hd: empty path element")
+		}
+		v := new(big.Int)
+		for _, c := range []byte(e) {
+			if c < '0' || c > '9' {
+				return nil, errors.New("hd: path element is not a decimal number")
+			}
+			v.Mul(v, big.NewInt(10)).Add(v, big.NewInt(int64(c-'0')))
+		}
+		if v.Sign() != 0 && neg || v.Cmp(big.NewInt(1<<31)) >= 0 {
+			return nil, errors.New("hd: path element out of range")
+		}
+		i := uint32(v.Uint64())
+		if hardened {
+			i |= Hardened
+		}
+		path = append(path, i)
+	}
+	return path, nil
 }
